@@ -62,3 +62,14 @@ w("10_etcd_lookups_during_events", ops)
 # getBackendLocked the prefix comparison against the url as stored accepted https://h1.invalid/bx for .../b)
 w("12_etcd_sibling_path_not_under_backend", ["mode etcd", put("/backends/k1", "https://h1.invalid/b", "s0", stream=1000),
    probe("https://h1.invalid/bx"), probe("https://h1.invalid/bx/ocs/v2.php"), probe("https://h1.invalid/b/x"), probe("https://h1.invalid/b"), "list"])
+# the common `[backend] secret`: a backend without own secret is configured only while the file in force has a common
+# secret, and answers with that one (a Reload falling back to the common secret of an earlier file keeps / adds it)
+n = sec("b1", "https://h1.invalid/a", ""); o = sec("b2", "https://h1.invalid/b", "s2")
+w("13_static_common_secret_removed", ["mode static", "load " + cfg("b1, b2", [n, o], cs="old"), probe("https://h1.invalid/a/x"),
+   "reload " + cfg("b1, b2", [n, o]), probe("https://h1.invalid/a/x"), probe("https://h1.invalid/b/x"), "list"])
+o1 = sec("b1", "https://h1.invalid/a", "s1"); n3 = sec("b3", "https://h1.invalid/c", "")
+w("14_static_common_secret_gone_before_backend_without_own", ["mode static", "load " + cfg("b1", [o1], cs="old"), "reload " + cfg("b1", [o1]),
+   probe("https://h1.invalid/a/x"), "reload " + cfg("b1, b3", [o1, n3]), probe("https://h1.invalid/c/x"), probe("https://h1.invalid/a/x"), "list"])
+w("15_static_common_secret_changed_removed_readded", ["mode static", "load " + cfg("b1, b2", [n, o], cs="old"), "reload " + cfg("b1, b2", [n, o], cs="new"),
+   probe("https://h1.invalid/a/x"), "reload " + cfg("b1, b2", [n, o]), probe("https://h1.invalid/a/x"), "reload " + cfg("b2, b1", [n, o], cs="newer"),
+   probe("https://h1.invalid/a/x"), probe("https://h1.invalid/b/x"), "list"])
